@@ -47,6 +47,22 @@ func (s *timeoutCollector) add(timeout hotstuff.TimeoutMsg) ([]hotstuff.TimeoutM
 	return timeoutList, true
 }
 
+// completesQuorumWithout reports whether the given timeout would complete a quorum of timeouts
+// for its view among which there is none from the replica with the given id.
+func (s *timeoutCollector) completesQuorumWithout(timeout hotstuff.TimeoutMsg, id hotstuff.ID) bool {
+	n := 0
+	for _, t := range s.timeouts {
+		if t.View != timeout.View {
+			continue
+		}
+		if t.ID == id || t.ID == timeout.ID {
+			return false
+		}
+		n++
+	}
+	return timeout.ID != id && n+1 == s.config.QuorumSize()
+}
+
 // deleteOldViews removes all timeouts with a view lower than the current view.
 // This is used to clean up timeouts that are no longer relevant, as they are from
 // an already processed view.
